@@ -90,7 +90,7 @@ def plan(tier, seed):
     # simulation: orders completed in flight by being matched / lapsed / voided
     nsim = 4000 if tier == "quick" else 40000
     for i in range(nsim):
-        cases.append({"mode": "sim", "seed": seed, "idx": i, "profile": ("hostile", "fastlat", "multi")[i % 3]})
+        cases.append({"mode": "sim", "seed": seed, "idx": i, "profile": ("hostile", "fastlat", "multi", "event")[i % 4]})
     # paper trading: the simulated execution on its thread pool inside a live Flumine (orders complete between request and response
     # by being matched while the call waits in the pool; the poller reports completion later)
     for i in range(400 if tier == "quick" else 8000):
@@ -320,6 +320,9 @@ def run_sim(desc, out):
         if "exc" not in e and (got_ok != exp_ok or got_failed != exp_failed):
             out.v("transaction-count-differs", dict(tags, direction="over" if got_ok + got_failed > exp_ok + exp_failed else "under"), got=(got_ok, got_failed), expected=(exp_ok, exp_failed), effect=e)
         out.d("sim:%s:%d:%s" % (e["kind"], min(len(e["orders"]), 3), ",".join(sorted(set(e["pre"])))))
+    # a request handed to the simulated exchange is executed once its delay has passed (otherwise its orders stay in flight for ever)
+    for p_ in O.unexecuted_packages(tr, case):
+        out.v("order-left-in-flight", {"kind": p_["kind"], "exec": "Simulated", "n": min(len(p_["orders"]), 3), "pre": "never-executed", "status": "-"}, package={k: p_[k] for k in ("pid", "kind", "orders", "market", "tick")})
     # replacement orders carry the price requested for their own original
     want = {}
     for r in tr.requests:
